@@ -380,6 +380,9 @@ class Interp:
         if k == "Pool":
             from .nplib import PoolVal
             return PoolVal()
+        if k == "DType":
+            from .nplib import DTypeVal
+            return DTypeVal(parse_type("Row(" + p[1] + ")")[1])
         if k == "IDict":
             # dict with int keys inserted in the order -1, 0, 1, ...:
             # the values in insertion order (position p <-> key p - 1)
